@@ -94,3 +94,63 @@ def m_print(it, name, a):
     return UNIT
 
 from . import fmtmodel  # noqa: E402,F401
+
+
+# --------------------------------------------------------------------------- memory / raw I/O stubs
+@model(r'std::mem::size_of::<libc::input_event>', r'core::mem::size_of::<libc::input_event>', r'std::mem::size_of::<input_event>')
+def m_size_of_input_event(it, name, a):
+    return 24     # x86-64 / aarch64 Linux; checked against the native build (ping request)
+
+
+@model(r'(std|core)::mem::size_of::<(\w+)>')
+def m_size_of(it, name, a):
+    from .interp import INT_BITS
+    ty = re.search(r'size_of::<(\w+)>', name).group(1)
+    if ty in INT_BITS and ty != 'bool':
+        return INT_BITS[ty] // 8
+    raise Unsupported(name)
+
+
+@model(r'(std|alloc)::vec::from_elem::<.*>')
+def m_from_elem(it, name, a):
+    n = a[1]
+    if not isinstance(n, int):
+        raise Unsupported('vec![x; n] with symbolic n')
+    return VecV([clone_val(a[0]) for _ in range(n)])
+
+
+@model(exact=('nix::unistd::write',))
+def m_nix_write(it, name, a):
+    return it.env.write(it, a[0], it.deref(a[1]))
+
+
+@model(exact=('nix::unistd::read',))
+def m_nix_read(it, name, a):
+    from .models import innermost_ref
+    r = innermost_ref(it, a[1])
+    return it.env.read(it, a[0], it.read(r.cell, r.path))
+
+
+# --------------------------------------------------------------------------- num-traits FromPrimitive default methods
+@model(r'<(\w+) as (num_traits::)?(cast::)?FromPrimitive>::from_(u8|u16|u32|usize|i8|i16|i32|isize|u64|i64)')
+def m_from_primitive(it, name, a):
+    """default methods forward to the derived from_i64/from_u64, which are in the crate's MIR"""
+    m = re.fullmatch(r'<(\w+) as (?:num_traits::)?(?:cast::)?FromPrimitive>::from_(\w+)', name)
+    ty, src = m.groups()
+    v = a[0]
+    signed = src.startswith('i')
+    tgt = 'from_i64' if signed else 'from_u64'
+    v64 = it.cast(v, src, 'i64' if signed else 'u64', 'IntToInt')
+    summ = getattr(it.p, 'from_primitive_summary', {}).get(ty)
+    if summ is not None and z3.is_expr(v64):
+        # summary established by exhaustive concrete execution of the derived function (iocheck.summarise_from_primitive)
+        lo, hi, domain = summ
+        indom = z3.Or([z3.And(v64 >= l, v64 <= h) if signed else z3.And(z3.UGE(v64, l), z3.ULE(v64, h))
+                       for l, h in domain])
+        if it.decide(indom):
+            return some(EnumC(ty, z3.Extract(31, 0, v64)))
+        return none()
+    f = it.p.resolve('<%s as FromPrimitive>::%s' % (ty, tgt))
+    if f is None:
+        raise Unsupported('derived %s::%s not found' % (ty, tgt))
+    return it.run(f, [v64])
